@@ -129,6 +129,23 @@ Theorem c16_invalid_never_sent :
 Proof. exact invalid_never_sent. Qed.
 Print Assumptions c16_invalid_never_sent.
 
+(* ... instantiated: when the gate applies (at least) the value constraints the OpenResponses schema puts on input
+   items (`items_ok`: call_id 1..64 characters, function name 1..64 characters of [a-zA-Z0-9_-], message role one
+   of the four, texts <= 10 MiB characters — numbers, pattern and roles are tied to the schema documents by T1,
+   `items_ok` to the schema judge of the harness by T2), then whatever call ids and function names the provider
+   sends, every function_call / function_call_output item of every request that leaves the loop is within them *)
+Theorem c16_sent_items_within_schema_limits :
+  forall g valid tool prompt init script i q,
+  nth_error (sent (run g (fun k r => items_ok r && valid k r) tool prompt init script)) i = Some q ->
+  (forall id cid n a, In (ICall id cid n a) (items_of q) ->
+     CALL_ID_MIN <= nlen cid <= CALL_ID_MAX /\ NAME_MIN <= nlen n <= NAME_MAX /\
+     (forall c, In c n -> name_char_ok c = true)) /\
+  (forall id cid o, In (IOut id cid o) (items_of q) ->
+     CALL_ID_MIN <= nlen cid <= CALL_ID_MAX /\ nlen o <= TEXT_MAX) /\
+  (forall r t, In (IMsg r t) (items_of q) -> role_ok r = true /\ nlen t <= TEXT_MAX).
+Proof. exact sent_within_schema_limits. Qed.
+Print Assumptions c16_sent_items_within_schema_limits.
+
 (* ---- answered exactly once, by call id, in output order, in the very next request, and nowhere else:
    for consecutive iterations it1, it2 every drained call of it1 was processed (same order), and
    - stateful: the input of it2's request is exactly the outputs of these calls (+ the follow-up message),
@@ -285,3 +302,9 @@ Example c16_example_same_id :
   res_reason ex_same_id_run = Completed /\
   map (fun it => out_ids (items_of (it_req it))) (res_iters ex_same_id_run) = [[]; [lit "c1"]; [lit "c1"; lit "c1"]].
 Proof. exact ex_same_id_shape. Qed.
+
+(* the provider sends a 70-character call id: the follow-up that would answer it is refused, only the first request is sent *)
+Example c16_example_long_call_id :
+  nlen (lit ex_long_id) = 70 /\ length (sent ex_long_id_run) = 1%nat /\ res_reason ex_long_id_run = InvalidRequest /\
+  match res_rejected ex_long_id_run with Some q => out_ids (items_of q) = [lit ex_long_id] | None => False end.
+Proof. exact ex_long_id_shape. Qed.
